@@ -12,6 +12,23 @@ Definition apply_vop (r : res view) (o : vop) : res view :=
     | VRc => getitem_slice FSeqView v None None (Some (-1))
     end).
 
+(** a history step of the correspondence: a view operation or [seq.copy()]
+    ([copy(sliced=True)]: the parent is cut down to the displayed segment, the
+    view is re-based and the annotation offset set to the old parent_start;
+    C01's [apply_op Fixed _ CopySliced], both sequence classes since the
+    new-style repair) *)
+Inductive hop := HOp (o : vop) | HCopy.
+
+Definition apply_hop (r : res (view * list Z)) (h : hop) : res (view * list Z) :=
+  bind r (fun '(v, p) =>
+    match h with
+    | HOp o => bind (apply_vop (Ok v) o) (fun v' => Ok (v', p))
+    | HCopy => match apply_op Fixed (mkS v p KDna true) CopySliced with
+               | Ok s' => Ok (sv s', parent s')
+               | Err e => Err e
+               end
+    end).
+
 Definition vres {A} (f : A -> val) (r : res A) : val :=
   match r with Ok a => f a | Err e => VE e end.
 
@@ -49,7 +66,7 @@ Definition obs_query (fx : fixes) (i : seqimpl) (v : view) (p : list Z) (db : li
 Definition mk_feat (x : list (Z * Z) * bool) : feat := mkF (fst x) (snd x).
 
 Definition case : Type :=
-  (Z * (bool * bool * bool) * list Z * Z * list (list (Z * Z) * bool) * list vop
+  (Z * (bool * bool * bool) * list Z * Z * list (list (Z * Z) * bool) * list hop
    * option (list (Z * Z) * bool) * list (option Z * option Z * bool))%type.
 
 Definition run_case (c : case) : val :=
@@ -59,20 +76,20 @@ Definition run_case (c : case) : val :=
   let i := if iz =? 0 then OldSeq else NewSeq in
   let db := map mk_feat feats in
   let root := mk_view (zlen p) None None None off in
-  match root, fold_left apply_vop ops root with
-  | Ok v0, Ok v =>
+  match root, fold_left apply_hop ops (bind root (fun v0 => Ok (v0, p))) with
+  | Ok v0, Ok (v, pv) =>
       match add with
-      | None => VL [VN; VL (map (obs_query fx i v p db) qs); VN]
+      | None => VL [VN; VL (map (obs_query fx i v pv db) qs); VN]
       | Some (sp, minus) =>
           match add_feature fx v sp minus with
           | Err e => VL [VE e; VL []; VN]
           | Ok (rec, msp, mminus) =>
               let db' := db ++ [rec] in
               let direct := match make_feature fx (vlen v) (is_reversed v) msp mminus with
-                            | Ok fv => obs_feature fx i v p (zlen db, fv)
+                            | Ok fv => obs_feature fx i v pv (zlen db, fv)
                             | Err e => VE e
                             end in
-              VL [direct; VL (map (obs_query fx i v p db') qs);
+              VL [direct; VL (map (obs_query fx i v pv db') qs);
                   obs_query fx i v0 p db' (None, None, true)]
           end
       end
